@@ -119,6 +119,7 @@ pub fn run(tier: &str, seed: u64, outdir: &str) {
         vec![("name", "Zoë ✓ 日本"), ("age", "-2147483648"), ("sex", ""), ("height", "+7")],
         vec![("name", "2147483648"), ("age", "2147483647"), ("sex", "-0"), ("height", "0042")],
         vec![("name", " 12"), ("age", "1e3"), ("sex", "١٢"), ("height", "-")],
+        vec![("name", "true"), ("age", "false"), ("sex", "True"), ("height", "null")],
     ];
     for (i, vals) in edge.iter().enumerate() {
         pool.push((vw::issue(&w.cds, 0, &w.holders[0], vals, None), 0, None, "edge-values"));
